@@ -25,6 +25,9 @@ Scope notes (read with the statements):
   harness's history / lifecycle streams (the corresponding model facts are definitional and live in `Lemmas/AlignMore`).
 * a shipped stepper decides per *batch* (`torch.all` over the items' errors): `icpWith` is the unbatched call, `icpWithB`
   the batched one.
+* recovery: `icp_recovers*` assume the basin at the first pass; `icp_recovers_after` / `icpWith_recovers_after` /
+  `icpWithB_recovers_after` at any pass `k` (then every pass count `> k` returns the exact motion); *when* a given cloud enters
+  the basin is not proved (it depends on the geometry) — the harness samples it (mixed-batch stream).
 * `svdstf_ok_iff` is about an *unbatched* call; `mat2Sim3`'s rank test looks at the whole batch: `svdstfBatch_ok`.
 * `var_source = 0` (all sources equal) is excluded by hypothesis (`0 < energyS`): the code divides by zero there (NaN scale,
   then "not orthogonal"), the totalised model would report `notFullRank`.
@@ -868,6 +871,154 @@ theorem svdstfBatch_ok (svd : Mat3 ℝ → SVD3 ℝ) (detK : Mat3 ℝ → ℝ) (
     exact sim3_optimal_of_form pr.1 hN hA _ hsvd _ rfl (by rw [SO3matrix_canonQ]; exact (hq pr.1 hm).2) rfl
 
 
+/-! ## pass 10: recovery from a basin that is reached only after some passes; recovery is absorbing; mixed batches -/
+
+/-- **ICP recovers an exact rigid motion as soon as the loop has entered the basin — at whatever pass.**
+`icp_recovers` asks that the *first* nearest-neighbour assignment is already the true correspondence.  A cloud that slides
+along a curve or a wall needs many passes before that is the case (the slowly converging items of the mixed batches of the
+harness: 10–35 passes).  Here the basin hypothesis is made about the `k`-th `temporal` cloud `X_k·src` instead (`X_k` is the
+product of the transforms found so far; such a unit `X_k` exists for every `k`: `icpIter_rigid`): if the closest target
+of `X_k·sᵢ` is `X*·sᵢ` for every source point, then for **every** number `k + n + 1` of passes beyond `k` the returned
+transform maps every source point exactly onto `X*·sᵢ`.  `k = 0` is `icp_recovers`. -/
+theorem icp_recovers_after (align : Pairs ℝ → SE3 ℝ) (hal : AlignOk align) (nn : Cloud ℝ → Vec3 ℝ → Nat)
+    (src tgt : Cloud ℝ) (hnn : NNOk nn tgt) (Xk Xs : SE3 ℝ) (hk1 : Xk.q.normSq = 1) (hXs : Xs.q.normSq = 1)
+    (init : Option (SE3 ℝ)) (k : Nat)
+    (hk : icpIter align nn tgt k (icpStart init src) = src.map (SE3Act Xk))
+    (hbasin : ∀ s ∈ src, tgt.getD (nn tgt (SE3Act Xk s)) Vec3.zero = SE3Act Xs s)
+    (n : Nat) :
+    src.map (SE3Act (icp align nn init (k + n + 1) src tgt)) = src.map (SE3Act Xs) := by
+  have h := icp_recovers align hal nn src tgt hnn Xk Xs hk1 hXs (some Xk) rfl hbasin n
+  have he : icp align nn init (k + n + 1) src tgt = icp align nn (some Xk) (n + 1) src tgt := by
+    unfold icp
+    rw [Nat.add_assoc, icpIter_add, hk]
+    rfl
+  rw [he]; exact h
+
+/-- **Recovery is absorbing**: once the `temporal` cloud lies exactly on `X*·src ⊆ target` after `m` passes (the item is
+recovered with `m` passes), it is recovered with every larger number of passes: a stepper that lets the loop run longer
+— because *other items of the batch* are not yet quiet — cannot lose an item that has converged. -/
+theorem icp_recovered_stays (align : Pairs ℝ → SE3 ℝ) (hal : AlignOk align) (nn : Cloud ℝ → Vec3 ℝ → Nat)
+    (src tgt : Cloud ℝ) (hnn : NNOk nn tgt) (Xs : SE3 ℝ) (hXs : Xs.q.normSq = 1) (init : Option (SE3 ℝ)) (m : Nat)
+    (hm : icpIter align nn tgt m (icpStart init src) = src.map (SE3Act Xs))
+    (hin : ∀ s ∈ src, SE3Act Xs s ∈ tgt) (n : Nat) :
+    src.map (SE3Act (icp align nn init (m + n) src tgt)) = src.map (SE3Act Xs) := by
+  cases n with
+  | zero =>
+    unfold icp
+    rw [Nat.add_zero, hm]
+    exact icp_final_exact align hal Xs hXs src
+  | succ n =>
+    exact icp_recovers_after align hal nn src tgt hnn Xs Xs hXs hXs init m hm
+      (fun s hs => nn_self_of_mem nn tgt hnn _ (hin s hs)) n
+
+/-- the stepper form of `icp_recovers_after` (unbatched call): whatever the stepper, the loop makes some number `m ≤ fuel` of
+passes, and if the loop has entered the basin after `k` passes with `k + 1 ≤ m`, the exact rigid motion is returned -/
+theorem icpWith_recovers_after (align : Pairs ℝ → SE3 ℝ) (hal : AlignOk align) (nn : Cloud ℝ → Vec3 ℝ → Nat)
+    (src tgt : Cloud ℝ) (hnn : NNOk nn tgt) (init : Option (SE3 ℝ)) (cont : List ℝ → Bool) (fuel : Nat) :
+    ∃ m ≤ fuel, ∀ (k : Nat) (Xk Xs : SE3 ℝ), Xk.q.normSq = 1 → Xs.q.normSq = 1 → k + 1 ≤ m →
+      icpIter align nn tgt k (icpStart init src) = src.map (SE3Act Xk) →
+      (∀ s ∈ src, tgt.getD (nn tgt (SE3Act Xk s)) Vec3.zero = SE3Act Xs s) →
+      src.map (SE3Act (icpWith align nn cont fuel init src tgt)) = src.map (SE3Act Xs) := by
+  obtain ⟨m, hmf, he⟩ := icpLoop_eq_iter align nn cont tgt fuel (icpStart init src) []
+  refine ⟨m, hmf, ?_⟩
+  intro k Xk Xs hk1 hXs hkm hk hbasin
+  obtain ⟨n, rfl⟩ : ∃ n, m = k + n + 1 := ⟨m - (k + 1), by omega⟩
+  have := icp_recovers_after align hal nn src tgt hnn Xk Xs hk1 hXs init k hk hbasin n
+  unfold icp at this
+  unfold icpWith
+  rw [he]; exact this
+
+/-- **Mixed batches: an item is recovered whatever its neighbours are, provided the batch runs long enough for *it*.**
+For every batch-level stepper `cont` (any function of the whole history of all items' errors — `torch.all`, but also a
+`max` / `mean` / `any` over the batch) and every bound `fuel`, the batched call makes one common number `m ≤ fuel` of passes,
+and every item whose own loop has entered its basin after `k` passes with `k + 1 ≤ m` is returned exactly recovered.  So a
+batch-global criterion can hurt an item only by stopping the *common* loop before that item's `k + 1` — which is what the
+mixed-batch stream of the harness (class 51) tests against the item registered alone. -/
+theorem icpWithB_recovers_after (align : Pairs ℝ → SE3 ℝ) (hal : AlignOk align) (nn : Cloud ℝ → Vec3 ℝ → Nat)
+    (cont : List (List ℝ) → Bool) (fuel : Nat) (items : List (Option (SE3 ℝ) × Cloud ℝ × Cloud ℝ)) :
+    ∃ m ≤ fuel, ∀ p ∈ items.zip (icpWithB align nn cont fuel items), NNOk nn p.1.2.2 →
+      ∀ (k : Nat) (Xk Xs : SE3 ℝ), Xk.q.normSq = 1 → Xs.q.normSq = 1 → k + 1 ≤ m →
+        icpIter align nn p.1.2.2 k (icpStart p.1.1 p.1.2.1) = p.1.2.1.map (SE3Act Xk) →
+        (∀ s ∈ p.1.2.1, p.1.2.2.getD (nn p.1.2.2 (SE3Act Xk s)) Vec3.zero = SE3Act Xs s) →
+        p.1.2.1.map (SE3Act p.2) = p.1.2.1.map (SE3Act Xs) := by
+  obtain ⟨m, hmf, he⟩ := icpWithB_items align nn cont fuel items
+  refine ⟨m, hmf, ?_⟩
+  rw [he]
+  intro p hp hnn k Xk Xs hk1 hXs hkm hk hbasin
+  have hz : ∀ (l : List (Option (SE3 ℝ) × Cloud ℝ × Cloud ℝ)) (f : _ → SE3 ℝ) (y : _ × SE3 ℝ), y ∈ l.zip (l.map f) → y.1 ∈ l ∧ y.2 = f y.1 := by
+    intro l f; induction l with
+    | nil => intro y hy; simp at hy
+    | cons a l ih =>
+      intro y hy
+      simp only [List.map_cons, List.zip_cons_cons, List.mem_cons] at hy
+      rcases hy with rfl | hy
+      · exact ⟨List.mem_cons_self .., rfl⟩
+      · exact ⟨List.mem_cons_of_mem _ (ih y hy).1, (ih y hy).2⟩
+  obtain ⟨_, hv⟩ := hz items _ p hp
+  rw [hv]
+  obtain ⟨n, rfl⟩ : ∃ n, m = k + n + 1 := ⟨m - (k + 1), by omega⟩
+  exact icp_recovers_after align hal nn p.1.2.1 p.1.2.2 hnn Xk Xs hk1 hXs p.1.1 k hk hbasin n
+
+
+/-- the points the returned transform produces are exactly the last `temporal` cloud of the loop (the final
+`svdtf(source, temporal)` reproduces the accumulated rigid motion) -/
+theorem icp_result_cloud (align : Pairs ℝ → SE3 ℝ) (hal : AlignOk align) (nn : Cloud ℝ → Vec3 ℝ → Nat)
+    (src tgt : Cloud ℝ) (init : Option (SE3 ℝ)) (hinit : ∀ T, init = some T → T.q.normSq = 1) (n : Nat) :
+    src.map (SE3Act (icp align nn init n src tgt)) = icpIter align nn tgt n (icpStart init src) := by
+  obtain ⟨X₀, h₀, hs⟩ := icpStart_rigid init hinit src
+  obtain ⟨X, hX, hXe⟩ := icpIter_rigid align hal nn tgt src n X₀ h₀
+  unfold icp
+  rw [hs, hXe, icp_final_exact align hal X hX src]
+
+/-- **zero passes** (a stepper that never allows a pass): the returned transform acts on the source points exactly like the
+initial transform (like the identity if there is none) — the harness's `init:` oracle -/
+theorem icp_zero_passes (align : Pairs ℝ → SE3 ℝ) (hal : AlignOk align) (nn : Cloud ℝ → Vec3 ℝ → Nat)
+    (src tgt : Cloud ℝ) (init : Option (SE3 ℝ)) (hinit : ∀ T, init = some T → T.q.normSq = 1) :
+    src.map (SE3Act (icp align nn init 0 src tgt)) = icpStart init src :=
+  icp_result_cloud align hal nn src tgt init hinit 0
+
+/-- **More passes are never worse — at the level of the returned transforms** (`ord = 2`): the result of a call with
+`m + n` passes has a sum (hence mean) of squared closest-point distances at most that of a call with `m` passes on the same
+input.  This is the statement the harness samples when it compares calls with `n − 1` and `n` passes, and an item of a
+batch (common pass count `m + n`) with the item registered alone (`m` passes). -/
+theorem icp_result_more_passes_le (align : Pairs ℝ → SE3 ℝ) (hal : AlignOk align) (nn : Cloud ℝ → Vec3 ℝ → Nat)
+    (src tgt : Cloud ℝ) (hnn : NNOk nn tgt) (init : Option (SE3 ℝ)) (hinit : ∀ T, init = some T → T.q.normSq = 1)
+    (m n : Nat) :
+    sscd nn tgt (src.map (SE3Act (icp align nn init (m + n) src tgt))) ≤
+      sscd nn tgt (src.map (SE3Act (icp align nn init m src tgt))) := by
+  rw [icp_result_cloud align hal nn src tgt init hinit, icp_result_cloud align hal nn src tgt init hinit, icpIter_add]
+  exact icpIter_le align hal nn tgt hnn n _
+
+/-- **Mixed batches, cost clause**: whatever the batch-level stepper looks at, the batched call makes one common number
+`m ≤ fuel` of passes, and every item's result is at least as good (sum of squared closest-point distances, `ord = 2`) as
+the result of that item registered **alone with any number `m' ≤ m` of passes** — in particular with the passes its own
+stepper would have made, provided the batch did not stop earlier than that. -/
+theorem icpWithB_le_alone (align : Pairs ℝ → SE3 ℝ) (hal : AlignOk align) (nn : Cloud ℝ → Vec3 ℝ → Nat)
+    (cont : List (List ℝ) → Bool) (fuel : Nat) (items : List (Option (SE3 ℝ) × Cloud ℝ × Cloud ℝ))
+    (hit : ∀ it ∈ items, NNOk nn it.2.2 ∧ ∀ T, it.1 = some T → T.q.normSq = 1) :
+    ∃ m ≤ fuel, ∀ p ∈ items.zip (icpWithB align nn cont fuel items), ∀ m' ≤ m,
+      sscd nn p.1.2.2 (p.1.2.1.map (SE3Act p.2)) ≤
+        sscd nn p.1.2.2 (p.1.2.1.map (SE3Act (icp align nn p.1.1 m' p.1.2.1 p.1.2.2))) := by
+  obtain ⟨m, hmf, he⟩ := icpWithB_items align nn cont fuel items
+  refine ⟨m, hmf, ?_⟩
+  rw [he]
+  intro p hp m' hm'
+  have hz : ∀ (l : List (Option (SE3 ℝ) × Cloud ℝ × Cloud ℝ)) (f : _ → SE3 ℝ) (y : _ × SE3 ℝ), y ∈ l.zip (l.map f) → y.1 ∈ l ∧ y.2 = f y.1 := by
+    intro l f; induction l with
+    | nil => intro y hy; simp at hy
+    | cons a l ih =>
+      intro y hy
+      simp only [List.map_cons, List.zip_cons_cons, List.mem_cons] at hy
+      rcases hy with rfl | hy
+      · exact ⟨List.mem_cons_self .., rfl⟩
+      · exact ⟨List.mem_cons_of_mem _ (ih y hy).1, (ih y hy).2⟩
+  obtain ⟨hmem, hv⟩ := hz items _ p hp
+  rw [hv]
+  obtain ⟨hnn, hinit⟩ := hit p.1 hmem
+  obtain ⟨n, rfl⟩ : ∃ n, m = m' + n := ⟨m - m', by omega⟩
+  exact icp_result_more_passes_le align hal nn p.1.2.1 p.1.2.2 hnn p.1.1 hinit m' n
+
+
 /-! ## Non-vacuity: the hypotheses are satisfiable by non-trivial values -/
 
 /-- a concrete reflection-prone problem: `M = diag(2, 2, -1)` has the SVD `1 · diag(2,2,1) · diag(1,1,-1)` with
@@ -935,5 +1086,37 @@ example : 0 < energyS (centered [(⟨1, 0, 0⟩, ⟨2, 0, 0⟩), (⟨-1, 0, 0⟩
   simp only [energyS, centered, srcs, tgts, mean, List.map_cons, List.map_nil, vsum_cons, vsum_nil, List.length_cons,
     List.length_nil, ssum_cons, ssum_nil]
   lie_unfold; norm_num
+
+/-- pass 10: the hypotheses of `icp_recovered_stays` / `icp_recovers_after` are satisfiable for every non-empty cloud, a concrete
+nearest-neighbour kernel and a concrete aligner (target = source, `X* = 1`; `k = 1`: the basin hypothesis is made about the
+cloud *after* a pass) -/
+example (src : Cloud ℝ) (hne : src ≠ []) (n : Nat) :
+    src.map (SE3Act (icp idealAlign nnFirst none (0 + n) src src)) = src.map (SE3Act SE3one) ∧
+    src.map (SE3Act (icp idealAlign nnFirst none (1 + n + 1) src src)) = src.map (SE3Act SE3one) := by
+  have h1 : (SE3one : SE3 ℝ).q.normSq = 1 := by simp [SE3one, Quat.one, Quat.normSq]
+  have hid : src.map (SE3Act (SE3one : SE3 ℝ)) = src := by
+    conv_rhs => rw [← List.map_id src]
+    apply List.map_congr_left; intro s _; exact SE3Act_one s
+  have hnn := nnFirst_ok src hne
+  have hself : ∀ p ∈ src, src.getD (nnFirst src p) Vec3.zero = p := fun p hp => nn_self_of_mem nnFirst src hnn p hp
+  refine ⟨icp_recovered_stays idealAlign idealAlign_ok nnFirst src src hnn SE3one h1 none 0 (by simp [icpIter, icpStart, hid])
+    (fun s hs => by rw [SE3Act_one]; exact hs) n, ?_⟩
+  refine icp_recovers_after idealAlign idealAlign_ok nnFirst src src hnn SE3one SE3one h1 h1 none 1 ?_
+    (fun s hs => by rw [SE3Act_one]; exact hself s hs) n
+  simp only [icpIter, icpStart]
+  rw [icpStep_fixed idealAlign idealAlign_ok nnFirst src src hself, hid]
+
+/-- pass 10: the batch cost clause for a concrete aligner and kernel: any two registration problems with non-empty targets, any
+batch-level stepper -/
+example (a b : Cloud ℝ × Cloud ℝ) (ha : a.2 ≠ []) (hb : b.2 ≠ []) (cont : List (List ℝ) → Bool) (fuel : Nat) :
+    ∃ m ≤ fuel, ∀ p ∈ [(none, a), (none, b)].zip (icpWithB idealAlign nnFirst cont fuel [(none, a), (none, b)]), ∀ m' ≤ m,
+      sscd nnFirst p.1.2.2 (p.1.2.1.map (SE3Act p.2)) ≤
+        sscd nnFirst p.1.2.2 (p.1.2.1.map (SE3Act (icp idealAlign nnFirst p.1.1 m' p.1.2.1 p.1.2.2))) := by
+  apply icpWithB_le_alone idealAlign idealAlign_ok nnFirst cont fuel
+  intro it hit
+  simp only [List.mem_cons, List.not_mem_nil, or_false] at hit
+  rcases hit with rfl | rfl
+  · exact ⟨nnFirst_ok _ ha, by intro T h; cases h⟩
+  · exact ⟨nnFirst_ok _ hb, by intro T h; cases h⟩
 
 end PP.C17
